@@ -728,7 +728,7 @@ fn build_hash_body(
         }
     };
     Ok(quote! {
-        fn hash<H: ::core::hash::Hasher>(&self, state: &mut H) {
+        fn hash<__H: ::core::hash::Hasher>(&self, state: &mut __H) {
             #body
         }
     })
